@@ -22,7 +22,7 @@ set_option linter.unusedSimpArgs false
 
 namespace Anko.C02
 open Anko
-variable [FOps]
+variable [FOps] [Prov]
 
 theorem poll_cancelled (s : St) (hc : s.cancelled = true) : s.poll.1 = true := by
   unfold St.cancelled at hc
